@@ -8,6 +8,41 @@ BASELINE = ("cd /repo && env -u OTEL2PUML_VERIF /venv/bin/python -m pytest -ra -
 
 # id -> (category, technique, level text, level note, design ref)
 TABLE = {
+    'C01': ('translation_validation',
+            'verified validator (accepts_b: sound, no false rejection) + per-instance kernel-checked certificates over a frozen pool of fragment-F definitions; partial',
+            "PARTIAL: the learner's universal correctness is not proved (it is a heuristic). Proved in Coq: the validator's meaning (accepts_b_spec), invariance of the canonical form under job-graph isomorphism (no job isomorphic to a run is ever rejected), topological order of every run, and that ingestion drops no observed successor/predecessor set (ingest_evidence). Established per run: for every definition of the slice (thorough: all 1200 pool definitions; complete execution set and a seeded proper subset) the real pv_to_puml_string terminates within the limit, its text parses (parse_sound), and coqc certifies that every input job is accepted by the emitted diagram.",
+            'Trusted: Coq kernel+vm_compute; the executable semantics V.Puml.Exec (definition of diagram meaning); `canon` equality is coarser than isomorphism (a wrong acceptance is possible, a wrong rejection is not: accepts_iso); python line tokenizer; janus shim; frozen pool harness/pool/F.jsonl (every member certified inF_b on every run). Genuine learner failures inside the pool are listed in known_findings.json by definition id; any other failure is a VIOLATION.',
+            '4/C01'),
+    'C02': ('translation_validation',
+            'verified bounded language inclusion (incl_b) + per-instance certificates over the frozen pool; partial',
+            "PARTIAL: per definition of the slice the complete execution set (loops once and twice) is learned from and coqc certifies that every run of the emitted diagram with loops bounded at 2 is accepted by the source definition (loop bound on the source side deepened up to 3; enumerations above 4000 runs are reported undecided, not passed off as checked). Proved: incl_b_spec / not_included_spec; canon_not_complete documents the validator's incompleteness.",
+            'Trusted: Coq kernel+vm_compute; the executable semantics V.Puml.Exec (definition of diagram meaning); `canon` equality is coarser than isomorphism (a wrong acceptance is possible, a wrong rejection is not: accepts_iso); python line tokenizer; janus shim; frozen pool harness/pool/F.jsonl (every member certified inF_b on every run). Genuine learner failures inside the pool are listed in known_findings.json by definition id; any other failure is a VIOLATION.',
+            '4/C02'),
+    'C03': ('translation_validation',
+            'Coq proofs that ingestion depends only on the set of job graphs up to isomorphism + per-instance two-way language equivalence across presentation/hash-seed variants; partial',
+            "Proved outright (unbounded): ingestion is invariant under job permutation (ingest_perm), duplication (ingest_dup/ingest_idem) and renumbering of the events of a job (ingest_iso; ids, job ids and timestamps are not part of the model's input at all). PARTIAL for the schedule-dependent rest: for each definition of the slice 6 (thorough 8) presentations - permuted jobs/events, renamed ids + shifted times, a job supplied twice, five PYTHONHASHSEED values in separate processes with distinct uuid streams - must all succeed or all fail alike and be two-way language-equivalent to the baseline (certified in coqc).",
+            'Trusted: Coq kernel+vm_compute; the executable semantics V.Puml.Exec (definition of diagram meaning); `canon` equality is coarser than isomorphism (a wrong acceptance is possible, a wrong rejection is not: accepts_iso); python line tokenizer; janus shim; frozen pool harness/pool/F.jsonl (every member certified inF_b on every run). Genuine learner failures inside the pool are listed in known_findings.json by definition id; any other failure is a VIOLATION.',
+            '4/C03'),
+    'C04': ('proof',
+            'Coq theorems on the evidence model (file round trip, chunked ingestion with save/load at every boundary, cache freshness over all operation histories) + correspondence + CLI chains validated per instance',
+            'Universal Coq theorems about the Gallina model of Event/EventSet, ingestion and the model file: load (save m) = Some m for every canonical model; ingestion in ANY number of chunks with a save/load at every boundary equals one-shot ingestion; in every reachable state of the (repaired) staleness semantics the gate tree returned is the one computed from the current successor sets (tree_fresh), and the pinned tree is refuted with the witness that was fixed. Tied to /repo on every run: real ingestion, events_to_raw_input/raw_input_to_events and the logic_gate_tree getter over random operation histories vs the model in coqc. The last step (equal evidence => equivalent diagram) is validated per instance: real CLI chains pv2puml -om / -im ... -om over 2-3 chunks must give the same model file and a language-equivalent diagram as the one-shot run.',
+            'Trusted: Coq kernel+vm_compute; the executable semantics V.Puml.Exec (definition of diagram meaning); `canon` equality is coarser than isomorphism (a wrong acceptance is possible, a wrong rejection is not: accepts_iso); python line tokenizer; janus shim; frozen pool harness/pool/F.jsonl (every member certified inF_b on every run). Genuine learner failures inside the pool are listed in known_findings.json by definition id; any other failure is a VIOLATION.',
+            '4/C04'),
+    'C05': ('translation_validation',
+            'verified parser for the emitted dialect (parse_sound/parse_print: a successful parse IS grammar membership) + per-instance certificates over the frozen pool; partial',
+            'PARTIAL: per emitted text coqc certifies parse = Some(name, d) with the requested group name, wf d, and event set equal to the observed event types; the harness additionally rejects placeholder names. Proved: parse_sound, parse_print, print_inj, events_preserved, lex_render. Universe: pool slice plus the multi-start family (first event removed in front of an AND/OR fork) and loops ending in a fork (members of the pool).',
+            'Trusted: Coq kernel+vm_compute; the executable semantics V.Puml.Exec (definition of diagram meaning); `canon` equality is coarser than isomorphism (a wrong acceptance is possible, a wrong rejection is not: accepts_iso); python line tokenizer; janus shim; frozen pool harness/pool/F.jsonl (every member certified inF_b on every run). Genuine learner failures inside the pool are listed in known_findings.json by definition id; any other failure is a VIOLATION.',
+            '4/C05'),
+    'C06': ('translation_validation',
+            'verified gate-tree semantics and validators; exhaustive certification over the finite domain enumerated by a Coq function proved sound and complete',
+            "The property's domain is finite and is enumerated completely by enum_trees (proved: every enumerated tree is in the domain and every in-domain tree is enumerated up to child order; outcomes are invariant under child order). For every tree the full outcome family is fed to the real calculate_logic_gates and coqc certifies c06_check: every observed set is admitted, and on the stated sub-class the inferred tree admits exactly the observed sets (admits_b_iff, sound_b_spec, exact_b_spec). Quick: all trees with <= 4 events + 500 sampled with 5; thorough: all with <= 6 (27099 + 2761 trees; <= 5 under three hash seeds). The heuristic itself is not modelled (pm4py).",
+            'Trusted: Coq kernel+vm_compute; the executable semantics V.Puml.Exec (definition of diagram meaning); `canon` equality is coarser than isomorphism (a wrong acceptance is possible, a wrong rejection is not: accepts_iso); python line tokenizer; janus shim; frozen pool harness/pool/F.jsonl (every member certified inF_b on every run). Genuine learner failures inside the pool are listed in known_findings.json by definition id; any other failure is a VIOLATION.',
+            '4/C06'),
+    'C07': ('translation_validation',
+            'verified graph validators (reachability, acyclicity, single entry, nesting check c07_b sound and complete) + per-instance certificates on the real detect_loops output; partial',
+            'PARTIAL: for the loop-bearing definitions of the pool slice the directly-follows graph is built exactly as pv_to_puml_string does, the real detect_loops is called, and coqc certifies for the returned nesting: every level acyclic and single-entry, every observed event type exactly once in the whole nesting, every edge of the input lying on a cycle enclosed in some loop body. Proved: reach_b_iff, acyclic_b_iff, single_entry_b_iff, c07_b_sound/complete, existence of a topological order for every certified level. detect_loops itself is not modelled.',
+            'Trusted: Coq kernel+vm_compute; the executable semantics V.Puml.Exec (definition of diagram meaning); `canon` equality is coarser than isomorphism (a wrong acceptance is possible, a wrong rejection is not: accepts_iso); python line tokenizer; janus shim; frozen pool harness/pool/F.jsonl (every member certified inF_b on every run). Genuine learner failures inside the pool are listed in known_findings.json by definition id; any other failure is a VIOLATION.',
+            '4/C07'),
     "C15": ("proof",
             "Coq theorem by induction over run histories of any length (store-stability invariant) over the composed ingest/clean/unique/stream models; correspondence against real separate-process CLI histories on one SQLite file",
             "Universal Coq theorem (runs_repeatable) for histories of ANY length and every batch size about the composition of the "
@@ -95,7 +130,7 @@ TABLE = {
 }
 
 # properties whose check is finished and quiet on the unchanged tree
-READY = {"C08", "C09", "C10", "C11", "C12", "C15", "C16"}
+READY = {"C01", "C02", "C03", "C04", "C05", "C06", "C07", "C08", "C09", "C10", "C11", "C12", "C15", "C16"}
 
 NOT_YET = {
 }
